@@ -17,6 +17,10 @@ from props.common import scale, load_corpus
 THEOREMS = ["c14_rabin_eq_spec", "c14_table_eq_bitserial", "c14_hex", "c14_empty", "c14_dispatch", "c14_congruence"]
 TARGETS = ["Properties.TablesRabin", "Properties.TablesSchema", "Properties.C14"]
 
+# Java MessageDigest standard names -> hashlib names
+JAVA_NAMES = {"MD5": "md5", "SHA-1": "sha1", "SHA-224": "sha224", "SHA-256": "sha256", "SHA-384": "sha384", "SHA-512": "sha512",
+              "SHA3-224": "sha3_224", "SHA3-256": "sha3_256", "SHA3-384": "sha3_384", "SHA3-512": "sha3_512", "MD2": "md2"}
+
 P = 0xC15D213AA4D7A795
 
 
@@ -121,7 +125,7 @@ def run(tier, seed):
     expect = []
     for a in calgs:
         for t in ctexts:
-            expect.append(spec_hex(t.encode("utf-8")) if a == "CRC-64-AVRO" else hashlib.new(JAVA_FINGERPRINT_MAPPING.get(a, a), t.encode("utf-8")).hexdigest())
+            expect.append(spec_hex(t.encode("utf-8")) if a == "CRC-64-AVRO" else hashlib.new(JAVA_NAMES.get(a, a), t.encode("utf-8")).hexdigest())
     for trial in range(scale(tier, 3)):
         env = dict(os.environ, PYTHONPATH=REPO)
         try:
@@ -163,8 +167,15 @@ def run(tier, seed):
         run.count(case, True, ["alg:" + (a if a in names else "unknown")])
         run.cov["traces_validated_against_impl"] += 1
         if a in names:
-            real = JAVA_FINGERPRINT_MAPPING.get(a, a)
-            exp = hashlib.new(real, t.encode("utf-8")).hexdigest()
+            # which digest an advertised name denotes: hashlib's own names, and the Java (MessageDigest) spellings —
+            # a table of the harness, not the implementation's mapping
+            real = JAVA_NAMES.get(a, a)
+            try:
+                exp = hashlib.new(real, t.encode("utf-8")).hexdigest()
+            except (ValueError, TypeError):
+                case["impl"] = io_
+                run.fail(case, "an advertised algorithm name (%r) denotes no digest hashlib can compute" % a, kind="oracle")
+                continue
             if io_.get("ok") != exp:
                 case["impl"], case["expected"] = io_, exp
                 run.fail(case, "digest differs from hashlib's for an advertised algorithm", kind="oracle")
